@@ -341,6 +341,69 @@ def _silent_error_returns(body, is_error) -> list[int]:
     return [] if bad[0] else sorted(set(out))
 
 
+def _heap_tag_sites(body) -> list[dict]:
+    """Places where a CPyTagged is made from an object pointer by OR-ing the tag bit (`((CPyTagged)obj) | 1`),
+    with the names mentioned by the enclosing if-conditions under which the expression is evaluated (then-branches)."""
+    out: list[dict] = []
+
+    def is_tagging(n) -> bool:
+        if n.get("kind") != "BinaryOperator" or n.get("opcode") != "|" or len(n.get("inner", [])) != 2:
+            return False
+        l, r = n["inner"]
+        rs = _strip(r)
+        if not (rs.get("kind") == "IntegerLiteral" and rs.get("value") == "1"):
+            return False
+        # left: a cast of a pointer-typed expression to the integer type
+        cur = l
+        while cur.get("kind") in ("ParenExpr", "ImplicitCastExpr") and cur.get("inner"):
+            cur = cur["inner"][0]
+        if cur.get("kind") != "CStyleCastExpr" or not cur.get("inner"):
+            return False
+        inner = cur["inner"][0]
+        while inner.get("kind") in ("ParenExpr", "ImplicitCastExpr") and inner.get("inner"):
+            inner = inner["inner"][0]
+        return "*" in inner.get("type", {}).get("qualType", "")
+
+    def walk(n, conds: list):
+        k = n.get("kind")
+        kids = [c for c in n.get("inner", []) or [] if isinstance(c, dict)]
+        if is_tagging(n):
+            names: set = set()
+            for c in conds:
+                _names_in(c, names)
+                # callee names of calls in the condition
+                def calls(x):
+                    if x.get("kind") == "CallExpr" and x.get("inner"):
+                        nm = _strip(x["inner"][0]).get("referencedDecl", {}).get("name")
+                        if nm:
+                            names.add(nm)
+                    for y in x.get("inner", []) or []:
+                        if isinstance(y, dict):
+                            calls(y)
+                calls(c)
+            ops: set = set()
+
+            def relops(x):
+                if x.get("kind") == "BinaryOperator" and x.get("opcode") in ("<", ">", "<=", ">="):
+                    ops.add(x["opcode"])
+                for y in x.get("inner", []) or []:
+                    if isinstance(y, dict):
+                        relops(y)
+            for c in conds:
+                relops(c)
+            out.append({"line": n.get("range", {}).get("begin", {}).get("line"), "guard_names": sorted(names), "n_guards": len(conds), "guard_relops": sorted(ops)})
+        if k == "IfStmt" and len(kids) >= 2:
+            walk(kids[0], conds)
+            walk(kids[1], conds + [kids[0]])
+            for e in kids[2:]:
+                walk(e, conds)  # else branch: the negated condition is not a size test we can use
+            return
+        for c in kids:
+            walk(c, conds)
+    walk(body, [])
+    return out
+
+
 def _reduce(doc: dict) -> dict:
     res = {}
     for n in doc.get("inner", []):
@@ -366,6 +429,9 @@ def _reduce(doc: dict) -> dict:
                     rets, structured = _consumption_at_returns(body[0], pn)
                     cons[pn] = {"returns": rets, "structured": structured, "given_away": _given_away(body[0], pn), "increfed": _increfed(body[0], pn)}
             ent["param_names"] = pnames
+            hts = _heap_tag_sites(body[0])
+            if hts:
+                ent["heap_tag_sites"] = hts
             if "*" in ret:
                 ent["silent_error_returns"] = _silent_error_returns(body[0], _is_null)
             elif ret in ("char", "_Bool", "bool"):
